@@ -1093,13 +1093,13 @@ func shape(in Input) string {
 	return sb.String()
 }
 
-// sig: known-finding signature, computed from the INPUT only.
-// map-tracked-key-unselected: a hook-running map update (Update / Updates(map)) whose map names a
-// tracked update-time field that has update permission, while a non-empty Select list does not name
-// that field and no Omit names it: the field is neither written nor refreshed.
-func sig(in Input) string {
+// trackedKeyUnselected: the shape of the fixed finding map-tracked-key-unselected (/repo commit
+// cef6815): a hook-running map update (Update / Updates(map)) whose map names a tracked update-time
+// field with update permission while a non-empty Select list does not name it and no Omit names it.
+// Such cases are generated on purpose (stream tracked-key-unselected).
+func trackedKeyUnselected(in Input) bool {
 	if in.Kind != "update" && in.Kind != "updates_map" || len(in.Selects) == 0 {
-		return ""
+		return false
 	}
 	t := typeOf(in)
 	namesField := func(items []SItem, j int) bool {
@@ -1119,11 +1119,14 @@ func sig(in Input) string {
 		f := t.Fields[pv.Field]
 		_, updatable := permOf(f)
 		if f.Auto == "update" && hasColumn(f) && updatable && !namesField(in.Selects, pv.Field) && !namesField(in.Omits, pv.Field) {
-			return "map-tracked-key-unselected"
+			return true
 		}
 	}
-	return ""
+	return false
 }
+
+// sig: no known finding is open for C10.
+func sig(in Input) string { return "" }
 
 func main() {
 	a := lib.ParseArgs()
@@ -1208,8 +1211,8 @@ func main() {
 			d = dyn
 		}
 		in := genInput(r, edge, d)
-		if sig(in) != "" {
-			kind = "known-shape"
+		if trackedKeyUnselected(in) {
+			kind = "tracked-key-unselected"
 		}
 		add(kind, in)
 	}
